@@ -22,12 +22,20 @@
 //! Every case is compiled in both styles; all four sub-claims are evaluated on
 //! every successful output:
 //!   framing   empty, or ends with exactly one `\n`
-//!   balance   (), [] and {} balance in the CSS token stream (strings, comments,
-//!             url() are single tokens)
+//!   balance   (), [] and {} balance outside strings, comments and url tokens
+//!             (own scanner; `url(` shields its content only when it forms a
+//!             CSS url token, e.g. not for `url(fn("s"))`)
 //!   encoding  valid UTF-8; non-ASCII => starts with `@charset "UTF-8";`
 //!             (expanded) / U+FEFF (compressed)
 //!   one-line  compressed: no `\n` before the final one, outside custom property values
 //! Oracle = exactly these predicates (structural; independent of rsass).
+//! The balance claim is not applied to corpus inputs that inject raw text with
+//! `#{..}` or `unquote(..)` (an unbalanced bracket or quote is then the author's).
+//! Known-defect signatures are computed by the check: a failure is signed only
+//! when every problem found matches one of the modelled wrong behaviours
+//! (comment text `replace("", "\n")`-garbled, line breaks only inside comments
+//! / at-rule preludes, balanced once escapes are ignored, balanced once the
+//! unterminated `/*` fragments of declaration values are removed).
 
 use serde::{Deserialize, Serialize};
 use std::collections::HashMap;
@@ -105,6 +113,7 @@ const LEAVES: &[(&str, bool)] = &[
     ("--w:a\n", true),
     ("d:e,\n f", true),
     ("d:\"a\\a b\"", true),
+    ("d:#{\"a\\a b\"}", true),
     ("d:\"a\\\nb\"", true),
     ("d:[e f] (g,h)", true),
     ("d:{e:f}", true),
@@ -468,6 +477,45 @@ fn balance(t: &str, escapes: bool) -> Result<(), Unbalanced> {
     }
 }
 
+/// Known defect `unterminated-comment-emitted`: the Sass parser accepts a
+/// declaration value that ends inside a `/*` comment and prints the comment
+/// opener as part of the value.  rsass never prints a comment inside a
+/// declaration value otherwise, so the instances are the `/*` that are not
+/// closed before the declaration ends (`;` + line end when expanded, `;` or
+/// `}` when compressed).  Returns the output with those fragments removed.
+fn repair_unterminated(t: &str, compressed: bool) -> Option<String> {
+    let mut out = String::new();
+    let mut rest = t;
+    let mut found = false;
+    while let Some(p) = rest.find("/*") {
+        let after = &rest[p + 2..];
+        let close = after.find("*/");
+        let end = if compressed {
+            after.find([';', '}'])
+        } else {
+            after.find(";\n")
+        };
+        match (close, end) {
+            (Some(c), Some(e)) if c < e => {
+                out.push_str(&rest[..p + 2 + c + 2]);
+                rest = &after[c + 2..];
+            }
+            (Some(c), None) => {
+                out.push_str(&rest[..p + 2 + c + 2]);
+                rest = &after[c + 2..];
+            }
+            (_, Some(e)) => {
+                found = true;
+                out.push_str(&rest[..p]);
+                rest = &after[e..];
+            }
+            (None, None) => break,
+        }
+    }
+    out.push_str(rest);
+    found.then_some(out)
+}
+
 struct Problem {
     claim: &'static str,
     sig: Option<&'static str>,
@@ -507,53 +555,55 @@ fn check_output(t: &str, compressed: bool, out: &mut Vec<Problem>) {
             });
         }
     }
+    let body = t.strip_prefix('\u{feff}').unwrap_or(t);
+    let repaired = repair_unterminated(body, compressed);
     // balance
-    match balance(t, true) {
-        Ok(()) => {}
-        Err(Unbalanced::UnterminatedComment) => out.push(Problem {
-            claim: "balance",
-            sig: Some("unterminated-comment-emitted"),
-            detail: format!("{style} output ends inside a comment: {:?}", head(t)),
-        }),
-        Err(Unbalanced::Brackets(e)) => {
-            // known defect: an escaped bracket of the source was taken for a real one
-            let sig = if t.contains('\\') && balance(t, false) == Ok(()) {
-                Some("escaped-bracket-taken-for-closer")
-            } else {
-                None
-            };
-            out.push(Problem {
-                claim: "balance",
-                sig,
-                detail: format!("{style} output does not balance: {e}; output {:?}", head(t)),
-            });
+    if let Err(e) = balance(body, true) {
+        let naive_ok = |x: &str| x.contains('\\') && balance(x, false) == Ok(());
+        let mut sigs: Vec<&'static str> = Vec::new();
+        match &repaired {
+            Some(r) if balance(r, true) == Ok(()) => sigs.push("unterminated-comment-emitted"),
+            Some(r) if naive_ok(r) => {
+                sigs.push("unterminated-comment-emitted");
+                sigs.push("escaped-bracket-taken-for-closer");
+            }
+            _ if naive_ok(body) => sigs.push("escaped-bracket-taken-for-closer"),
+            _ => {}
+        }
+        let what = match e {
+            Unbalanced::UnterminatedComment => "ends inside a comment".to_string(),
+            Unbalanced::Brackets(m) => m,
+        };
+        let detail = format!("{style} output does not balance: {what}; output {:?}", head(t));
+        if sigs.is_empty() {
+            out.push(Problem { claim: "balance", sig: None, detail });
+        } else {
+            for sg in sigs {
+                out.push(Problem { claim: "balance", sig: Some(sg), detail: detail.clone() });
+            }
         }
     }
     // one line
     if compressed {
-        let inner = t.strip_suffix('\n').unwrap_or(t);
+        let text = repaired.as_deref().unwrap_or(body);
+        let inner = text.strip_suffix('\n').unwrap_or(text);
         if inner.contains('\n') {
             let (stray, comments) = scan_compressed(inner);
             if !stray.is_empty() {
                 let mut sigs: Vec<&'static str> = Vec::new();
-                let mut unknown = false;
                 if stray.iter().any(|s| s.ctx == Ctx::Comment) {
                     let multi: Vec<&String> = comments.iter().filter(|c| c.contains('\n')).collect();
-                    if multi.iter().all(|c| garbled(c)) {
+                    if multi.iter().any(|c| garbled(c)) {
                         sigs.push("compressed-comment-garbled");
-                    } else if multi.iter().all(|c| !garbled(c)) {
-                        sigs.push("compressed-comment-multiline");
-                    } else {
-                        sigs.push("compressed-comment-garbled");
+                    }
+                    if multi.iter().any(|c| !garbled(c)) {
                         sigs.push("compressed-comment-multiline");
                     }
                 }
                 if stray.iter().any(|s| s.ctx == Ctx::Prelude) {
                     sigs.push("compressed-at-rule-prelude-newline");
                 }
-                if stray.iter().any(|s| s.ctx == Ctx::Other) {
-                    unknown = true;
-                }
+                let unknown = stray.iter().any(|s| s.ctx == Ctx::Other);
                 let where_ = match stray[0].ctx {
                     Ctx::Comment => " (inside a comment)",
                     Ctx::Prelude => " (inside an at-rule prelude)",
@@ -605,7 +655,7 @@ fn judge(e: &Out, c: &Out, src_injects: bool) -> Verdict {
     if !any {
         return Verdict::Trivial;
     }
-    if src_injects && std::env::var_os("NOEX").is_none() {
+    if src_injects {
         probs.retain(|p| p.claim != "balance");
     }
     if probs.is_empty() {
@@ -706,25 +756,9 @@ fn place(tpl: &str, text: &str) -> String {
 // ---------------------------------------------------------------------------
 
 fn main() {
-    if let Some(path) = std::env::var_os("VP_PROBE") {
-        rs::init_process();
-        let text = std::fs::read_to_string(path).unwrap();
-        for src in text.split("\n====\n") {
-            println!("SRC {src:?}");
-            for f in [Fmt::EXPANDED, Fmt::COMPRESSED] {
-                let o = rs::compile_files(FILES, "-", src.as_bytes(), f);
-                println!("  {} {:?}", if f.compressed { "C" } else { "E" }, o);
-            }
-            let e = rs::compile_files(FILES, "-", src.as_bytes(), Fmt::EXPANDED);
-            if let Some(css) = e.css() {
-                println!("  R {:?}", rs::compile_css(css.as_bytes(), Fmt::EXPANDED));
-            }
-        }
-        return;
-    }
     let ck = Check::from_args("C07");
     let quick = ck.quick();
-    ck.rule("shape grammar: leaf sequences / wrapper chains (rule, @media, unknown at-rule, @supports, @at-root) of depth <= 3 around leaf sequences / leaf next to wrapped leaf, over 57 leaves (one per printing path); encoding: 13 code-point classes (1-2 chars) x 42 places x {bare, in @media, in rule} and all place pairs; source tails; the complete spec corpus; each compiled expanded and compressed; distinct = distinct source; outcome = the two outputs");
+    ck.rule("shape grammar: leaf sequences / wrapper chains (rule, @media, unknown at-rule, @supports, @at-root) of depth <= 3 around leaf sequences / leaf next to wrapped leaf, over 58 leaves (one per printing path); encoding: 13 code-point classes (1-2 chars) x 42 places x {bare, in @media, in rule} and all place pairs; source tails; the complete spec corpus; each compiled expanded and compressed; distinct = distinct source; outcome = the two outputs");
     ck.assume("the bracket scanner of this file reads strings, comments and url tokens as CSS Syntax L3 does (a backslash escapes the next character; `url(` shields its content only when it forms a url token)");
     ck.assume("a declaration whose name starts with `--` is a custom property; its value ends at the first `;` or unmatched `}` outside strings/brackets");
     ck.note("sub_claims", serde_json::json!("framing, balance, encoding and one-line are all evaluated on every successful output of every section; the failing claim is named in the failure detail"));
@@ -749,11 +783,13 @@ fn main() {
         let inner23 = if quick { &l1 } else { &l2 };
         let mut v = wrapped(1, &inner1);
         v.extend(wrapped(2, inner23));
-        v.extend(wrapped(3, inner23));
+        if !quick {
+            v.extend(wrapped(3, inner23));
+        }
         ck.run(
             "shapes-wrap",
             if quick {
-                "1 wrapper x <= 2 leaves; chains of 2 and 3 wrappers x <= 1 leaf"
+                "1 wrapper x <= 2 leaves; chains of 2 wrappers x <= 1 leaf"
             } else {
                 "1 wrapper x <= 3 leaves; chains of 2 and 3 wrappers x <= 2 leaves"
             },
@@ -770,8 +806,8 @@ fn main() {
                 for b in 0..n {
                     v.push(vec![T::L(a), T::W(k, vec![T::L(b)])]);
                     v.push(vec![T::W(k, vec![T::L(b)]), T::L(a)]);
-                    v.push(vec![T::W(k, vec![T::L(a), T::W((k + 1) % w, vec![T::L(b)])])]);
                     if !quick {
+                        v.push(vec![T::W(k, vec![T::L(a), T::W((k + 1) % w, vec![T::L(b)])])]);
                         for c in 0..n {
                             v.push(vec![T::L(a), T::W(k, vec![T::L(b)]), T::L(c)]);
                         }
@@ -782,9 +818,9 @@ fn main() {
         ck.run(
             "shapes-mixed",
             if quick {
-                "leaf + wrapped leaf, wrapped leaf + leaf, wrapper{leaf, wrapper'{leaf}}"
+                "leaf + wrapped leaf, wrapped leaf + leaf"
             } else {
-                "the quick set + leaf, wrapped leaf, leaf"
+                "the quick set + wrapper{leaf, wrapper'{leaf}} + leaf, wrapped leaf, leaf"
             },
             v.iter().map(|s| prog(s)),
             run_prog,
@@ -819,7 +855,12 @@ fn main() {
         }
         for p in PLACES {
             for q in PLACES {
-                for (a, b) in [("\u{e9}", "\u{e9}"), ("\u{e9}", "x"), ("x", "\u{e9}")] {
+                let fills: &[(&str, &str)] = if quick {
+                    &[("\u{e9}", "\u{e9}")]
+                } else {
+                    &[("\u{e9}", "\u{e9}"), ("\u{e9}", "x"), ("x", "\u{e9}")]
+                };
+                for (a, b) in fills {
                     v.push(Prog { src: format!("{}\n{}\n", place(p, a), place(q, b)) });
                 }
             }
@@ -827,7 +868,7 @@ fn main() {
         ck.run(
             "encoding",
             if quick {
-                "37 texts x 42 places x 3 contexts; 42 x 42 place pairs x 3"
+                "37 texts x 42 places x 3 contexts; 42 x 42 place pairs"
             } else {
                 "181 texts x 42 places x 3 contexts; 42 x 42 place pairs x 3"
             },
@@ -851,7 +892,7 @@ fn main() {
                 }
             }
         }
-        ck.run("tails", "57 leaves x 9 source tails x {bare, in @media}", v.into_iter(), run_prog);
+        ck.run("tails", "58 leaves x 9 source tails x {bare, in @media}", v.into_iter(), run_prog);
     }
 
     // ---- corpus
